@@ -85,6 +85,19 @@ CHECKS.update({
          "DESIGN.md section 3 C17"),
 })
 
+CHECKS.update({
+ "C08": ("exploration",
+         "runtime round-trip monitor over the library's own NAS structs: reflection-built messages for all 45 types and all optional-IE subsets, presence/content comparison, byte-stable re-encode, idempotent decode, shuffled IE order, unknown types refused",
+         "For every message type all 2^k optional subsets (k<=10) or a structured sample are generated with corner values and lengths, encoded and decoded by the real codec in child processes; the monitor compares presence pattern and wire-visible content member by member, requires the second encoding to equal the first and the second decode to equal the first, shuffles the optional IE chunks, and feeds every unknown message type and several EPDs to PlainNasDecode.",
+         "IEI / message-type constants are read from the working tree with go/ast; values are generated in the normal form a decode produces; lengths within each member's capacity.",
+         "DESIGN.md section 3 C08"),
+ "C09": ("exploration",
+         "runtime differential monitor against hand-written TS 24.501 tables (ref/nas): every (message, optional IE) pair in both directions, mandatory parts, message-type octets, and the emulator's constructors parsed by the independent parser",
+         "All (message, optional IE) pairs (enumerated completely in every tier) are built by the library with exactly that IE present at table-minimum / maximum / random length and walked by the table-driven reference parser (IEI, format, length width, content, mandatory fields); conversely reference-built messages are decoded by the library. The emulator's registration, authentication, security-mode, NAS-transport, PDU-session, service and deregistration constructors are driven with random arguments and the parsed fields compared with the arguments.",
+         "The tables are this framework's reading of TS 24.501 Rel-15; where the spec changed an IEI between Rel-15 versions (Mapped EPS bearer contexts 7F/75) both are admitted and the library's dialect is spoken back to it; hard-coded 5G-S-TMSI contents and zero-filled SD are observations only.",
+         "DESIGN.md section 3 C09"),
+})
+
 NOT_YET = {}
 
 def main():
